@@ -511,6 +511,8 @@ class BitEval:
         for st in stmts:
             if isinstance(st, ast.Expr) and isinstance(st.value, ast.Constant):
                 continue
+            if isinstance(st, ast.Pass):
+                continue
             if isinstance(st, ast.Assign) and len(st.targets) == 1:
                 self._assign(st.targets[0], st.value)
             elif isinstance(st, ast.AugAssign):
